@@ -300,6 +300,8 @@ def r_stmts(ss, vt, ind):
 
 
 def render(prog):
+    if "raw" in prog:
+        return prog["raw"]
     vt = {}
     lines = r_stmts(prog["globals"], vt, 0)
     pre = PRELUDE
@@ -491,6 +493,7 @@ class Interp:
         for (pn, pt, isref), a in zip(fd["params"], args):
             if isref:
                 s, r, st, _ = self.resolve(a[1], sc)
+                self.get_path(s[r], st)    # binding a Referenz to an element checks the index (Laufzeitfehler)
                 new[pn] = Ref(s, r, st)
                 refroots.append((s, r))
                 if st:
@@ -618,6 +621,8 @@ def annotate_prints(prog):
 
 def reference(prog):
     """('ok', stdout, shapes, print-types) | ('err', stdout-so-far, shapes, print-types) | ('fuel',)"""
+    if "raw" in prog:
+        return ("ok", prog["expected"], set(), [])
     p = annotate_prints(prog)
     it = Interp(p)
     try:
@@ -692,6 +697,8 @@ def model_render(line, types):
 
 def to_model(prog):
     """one line for extract/_build/c08 (prefix notation), or None when outside the model's fragment"""
+    if "raw" in prog:
+        return None
     names = {}
 
     def nm(x):
@@ -967,16 +974,21 @@ def matrix_program(rng, ty, construct, mutation, who):
     return dict(globals=g, funs=list(helpers.values()), main=main)
 
 
-def matrix(rng):
-    """every (type, construct, mutation, mutated holder) combination that exists"""
+def matrix(rng, one_holder=False):
+    """every (type, construct, mutation, mutated holder) combination that exists; with one_holder only one of the
+    two holders (chosen at random) is mutated per cell"""
     out = []
     for ty in NONPRIM:
         for c in CONSTRUCTS:
             for m in MUTATIONS:
+                cell = []
                 for who in ("A", "B"):
                     p = matrix_program(rng, ty, c, m, who)
                     if p is not None:
-                        out.append((dict(kind="matrix", ty=ty, construct=c, mutation=m, who=who), p))
+                        cell.append((dict(kind="matrix", ty=ty, construct=c, mutation=m, who=who), p))
+                if one_holder and cell:
+                    cell = [rng.choice(cell)]
+                out += cell
     return out
 
 
@@ -1055,6 +1067,27 @@ def shape_programs(rng):
     prog = dict(globals=[("decl", "TL", "A", lit("TL", ("erstes element", "zweites element")))], funs=[f],
                 main=[("call", None, "element", [("val", V("A")), ("ref", ("el", ("var", "A"), ("int", 1)))]), ("print", V("A"), "direct")])
     out.append((dict(kind="shape", shape="value+Referenz same variable", ty="TL", mutation="element-part"), prog))
+    # (9) for-each over a GLOBAL while a callee (not the loop body itself) changes the global: the loop walks over the
+    #     value the global had when the loop started; directly and through a Referenz parameter bound to the global
+    for ty, ety, newel in (("TL", "T", ("lit", "T", "X")), ("ZL", "Z", ("int", 77)), ("T", "B", ("chr", "Z"))):
+        v = {"TL": ("a", "b", "c", "d"), "ZL": (1, 2, 3, 4), "T": "abcd"}[ty]
+        for pos in (2, 4):
+            tgt = ("var", "A")
+            mark = dict(name="markiere", params=[("i", "Z", False)],
+                        body=[("chr_asg", tgt, V("i"), newel) if ty == "T" else ("asg", ("el", tgt, V("i")), newel)], ret=None)
+            loop = ("for", ety, "e", V("A"), [("call", None, "markiere", [("val", ("int", pos))]), ("print", V("e"), "direct")])
+            prog = dict(globals=[("decl", ty, "A", lit(ty, v))], funs=[mark], main=[loop, ("print", V("A"), "direct")])
+            out.append((dict(kind="shape", shape="for-each over a global changed by a callee", ty=ty, mutation="index %d" % pos), prog))
+            loop2 = ("for", ety, "e", V("l"), [("call", None, "markiere", [("val", ("int", pos))]), ("print", V("e"), "wrapped" if ety == "T" else "direct")])
+            zeige = dict(name="laufe", params=[("l", ty, True)], body=[loop2], ret=None)
+            prog = dict(globals=[("decl", ty, "A", lit(ty, v))], funs=[mark, zeige],
+                        main=[("call", None, "laufe", [("ref", ("var", "A"))]), ("print", V("A"), "direct")])
+            out.append((dict(kind="shape", shape="for-each over a Referenz to a global changed by a callee", ty=ty, mutation="index %d" % pos), prog))
+        # the callee replaces / grows the whole global while it is iterated
+        grow = dict(name="wachse2", params=[("i", "Z", False)], body=[("asg", ("var", "A"), ("cat", V("A"), V("A")))], ret=None)
+        loop = ("for", ety, "e", V("A"), [("call", None, "wachse2", [("val", ("int", 1))]), ("print", V("e"), "direct")])
+        prog = dict(globals=[("decl", ty, "A", lit(ty, v))], funs=[grow], main=[loop, ("print", V("A"), "direct")])
+        out.append((dict(kind="shape", shape="for-each over a global replaced by a callee", ty=ty, mutation="compound"), prog))
     # (8) a Referenz to a part of a variable while the callee replaces / grows the container
     f = dict(name="ersetze", params=[("r", "T", True)],
              body=[("asg", ("var", "A"), ("lit", "TL", ("ganz", "neue", "liste"))), ("asg", ("var", "r"), ("lit", "T", "in das element geschrieben"))], ret=None)
@@ -1366,3 +1399,131 @@ def detemp(prog):
                 return ("asg", s[1], ("mk", ("lv", ("fld", d, "name")), ("lv", ("fld", d, "werte")), ("lv", ("fld", d, "anzahl"))))
         return s
     return _map_prog(prog, fstmt=fs)
+
+
+# ---- hand-written programs for constructs the AST does not have (deeply nested Kombinationen, calls as arguments) ---
+NESTED = '''Binde "Duden/Ausgabe" ein.
+
+Wir nennen die Kombination aus
+	der Zahlen Liste zahlen mit Standardwert eine Liste, die aus 1, 2, 3 besteht,
+	dem Text wort mit Standardwert "abc",
+einen Punkt, und erstellen sie so:
+	"ein neuer Punkt"
+
+Wir nennen die Kombination aus
+	dem Punkt punkt mit Standardwert ein neuer Punkt,
+eine Huelle, und erstellen sie so:
+	"eine neue Huelle"
+
+Wir nennen die Kombination aus
+	der Huelle huelle mit Standardwert eine neue Huelle,
+	der Zahl nr mit Standardwert 7,
+eine Truhe, und erstellen sie so:
+	"eine neue Truhe"
+
+Die Funktion zeigeZ mit dem Parameter x vom Typ Zahl, gibt nichts zurück, macht:
+	Schreibe x.
+	Schreibe '|'.
+Und kann so benutzt werden:
+	"zeige <x>"
+
+Die Funktion wandle mit dem Parameter k vom Typ Truhe, gibt eine Zahl zurück, macht:
+	Speichere 55 in zahlen von punkt von huelle von k an der Stelle 2.
+	Gib (zahlen von punkt von huelle von k) an der Stelle 1 zurück.
+Und kann so benutzt werden:
+	"wandle <k>"
+
+Die Funktion abbild mit dem Parameter k vom Typ Truhe Referenz, gibt eine Truhe zurück, macht:
+	Gib k zurück.
+Und kann so benutzt werden:
+	"abbild von <k>"
+
+Die Truhe a ist eine neue Truhe.
+Die Truhe b ist a.
+Speichere 99 in zahlen von punkt von huelle von a an der Stelle 1.
+zeige ((zahlen von punkt von huelle von a) an der Stelle 1).
+zeige ((zahlen von punkt von huelle von b) an der Stelle 1).
+Die Truhe c ist eine neue Truhe.
+Speichere a in c.
+Speichere 98 in zahlen von punkt von huelle von a an der Stelle 1.
+zeige ((zahlen von punkt von huelle von c) an der Stelle 1).
+Speichere 'Z' in wort von punkt von huelle von a an der Stelle 1.
+Schreibe (wort von punkt von huelle von b).
+Schreibe '|'.
+Schreibe (wort von punkt von huelle von a).
+Schreibe '|'.
+zeige (wandle a).
+zeige ((zahlen von punkt von huelle von a) an der Stelle 2).
+Die Truhe Liste truhen ist eine Liste, die aus a besteht.
+Speichere 97 in zahlen von punkt von huelle von a an der Stelle 1.
+zeige ((zahlen von punkt von huelle von (truhen an der Stelle 1)) an der Stelle 1).
+Die Truhe d ist (abbild von a).
+Speichere 96 in zahlen von punkt von huelle von a an der Stelle 1.
+zeige ((zahlen von punkt von huelle von d) an der Stelle 1).
+Speichere 5 in zahlen von punkt von huelle von b an der Stelle 3.
+zeige ((zahlen von punkt von huelle von a) an der Stelle 3).
+zeige ((zahlen von punkt von huelle von b) an der Stelle 3).
+zeige (nr von d).
+'''
+NESTED_EXPECTED = "99|1|99|abc|Zbc|98|2|98|97|3|5|7|"
+
+NESTED_CALL = '''Binde "Duden/Ausgabe" ein.
+
+Die Funktion ueberschreibe mit dem Parameter t vom Typ Text Referenz, gibt eine Zahl zurück, macht:
+	Speichere "vom aufgerufenen ersetzt, lang genug" in t.
+	Gib 1 zurück.
+Und kann so benutzt werden:
+	"ueberschreibe <t>"
+
+Die Funktion verlaengere mit dem Parameter l vom Typ Zahlen Listen Referenz, gibt eine Zahl zurück, macht:
+	Speichere l verkettet mit (eine Liste, die aus 7, 8, 9, 10, 11, 12, 13, 14, 15, 16 besteht) in l.
+	Speichere 0 in l an der Stelle 1.
+	Gib 2 zurück.
+Und kann so benutzt werden:
+	"verlaengere <l>"
+
+Die Funktion verdopple mit dem Parameter n vom Typ Zahl, gibt eine Zahl zurück, macht:
+	Gib n mal 2 zurück.
+Und kann so benutzt werden:
+	"verdopple <n>"
+
+Die Funktion aussenT mit dem Parameter t vom Typ Text, gibt eine Zahl zurück, macht:
+	Gib verdopple (ueberschreibe t) zurück.
+Und kann so benutzt werden:
+	"aussenT <t>"
+
+Die Funktion aussenL mit dem Parameter l vom Typ Zahlen Liste, gibt eine Zahl zurück, macht:
+	Gib verdopple (verdopple (verlaengere l)) zurück.
+Und kann so benutzt werden:
+	"aussenL <l>"
+
+Die Funktion lauf mit dem Parameter x vom Typ Zahl, gibt nichts zurück, macht:
+	Der Text lokal ist "ein lokaler Text, der lang genug ist".
+	Die Zahlen Liste liste ist eine Liste, die aus 1, 2, 3 besteht.
+	Die Zahl n ist aussenT lokal.
+	Schreibe n.
+	Schreibe '|'.
+	Schreibe lokal.
+	Schreibe '|'.
+	Die Zahl m ist aussenL liste.
+	Schreibe m.
+	Schreibe '|'.
+	Für jede Zahl z in liste, mache:
+		Schreibe z.
+		Schreibe ' '.
+	Schreibe '|'.
+Und kann so benutzt werden:
+	"lauf <x>"
+
+lauf 1.
+'''
+NESTED_CALL_EXPECTED = "2|ein lokaler Text, der lang genug ist|8|1 2 3 |"
+
+
+def raw_programs():
+    return [
+        (dict(kind="raw", name="Kombination nested three levels deep: copies of the outermost value, then in-place changes"),
+         dict(raw=NESTED, expected=NESTED_EXPECTED)),
+        (dict(kind="raw", name="value parameter handed on by Referenz inside the argument of another call"),
+         dict(raw=NESTED_CALL, expected=NESTED_CALL_EXPECTED)),
+    ]
